@@ -43,6 +43,39 @@ def int_domain(s):
     return all(ord(c) < 128 or not (c.isspace() or c.isdecimal() or c.isdigit() or c.isnumeric()) for c in s)
 
 
+def history_part(ctx, uri, model):
+    """parse_query_string / decode are pure: fresh strings, every option setting in a random order, repeated
+    and interleaved; every result must equal the model's whatever was called before"""
+    rng = ctx.rng
+    seeds = ['a=1,2&a=%2C', 'k=%41+b&k', 'x=%zz&=&y', 'caf%C3%A9=1&caf\xe9=2', 'a=,&a=,', 't=1&t=,1,4,,5', '%41=%41&%2541=%2541']
+    strings = [rng.choice(seeds) + '&h%d=%d' % (i, i) for i in range(600 if ctx.tier == 'quick' else 4000)]
+    calls = []
+    for s_ in strings:
+        per = [('p', kb, csv) for kb, csv in OPTS] + [('d', True), ('d', False)]
+        rng.shuffle(per)
+        per += [rng.choice(per) for _ in range(2)]
+        calls += [(s_, c) for c in per]
+    for i in range(0, len(calls), 48):
+        blk = calls[i:i + 48]
+        rng.shuffle(blk)
+        calls[i:i + 48] = blk
+    uniq = sorted({(s_, c) for s_, c in calls if c[0] == 'p'}, key=repr)
+    exp = dict(zip(uniq, (m_params(o[1]) for o in model.run_many([[0, s_, c[1], c[2]] for s_, c in uniq]))))
+    seen = {}
+    for i, (s_, c) in enumerate(calls):
+        r = canon_params(uri.parse_query_string(s_, keep_blank=c[1], csv=c[2])) if c[0] == 'p' else uri.decode(s_, c[1])
+        ctx.count('history')
+        ctx.note_case(('hist', i), True)
+        first = seen.setdefault((s_, c), r)
+        if r != first or (c[0] == 'p' and r != exp[(s_, c)]):
+            ctx.violation('result-depends-on-call-history',
+                          {'fn': 'parse_query_string' if c[0] == 'p' else 'decode', 'input': s_, 'call': list(map(str, c)),
+                           'impl': r, 'reference': exp.get((s_, c)), 'first_result_of_same_call': first,
+                           'earlier_calls_on_this_string': [list(map(str, cc)) for ss, cc in calls[:i] if ss == s_],
+                           'clause': 'parsing is a function of the query string and the options only'},
+                          key='history-' + c[0])
+
+
 def long_component_queries(ctx):
     """C10's long-path families inside query strings: a component with seven valid escapes plus a
     malformed / truncated / odd escape (1 hex digit, hex+space, '+' inside, non-hex, lone '%', '%%',
@@ -102,6 +135,7 @@ def main(ctx):
     ctx.assumptions.append('float(), uuid.UUID, strptime, json handler are oracles: only falcon\'s wrapping is checked')
     for o in common.corpus('C08'):
         replay(ctx, o)
+    history_part(ctx, uri, model)
     maxlen = 4 if ctx.tier == 'quick' else 5
     strings = list(short_strings(ALPHABET, maxlen))
     ctx.cov['exhaustive_short'] = 'all %d strings of length <= %d over %r x 4 option settings' % (
